@@ -107,7 +107,16 @@ func (v *VM[I, O, A]) verifyProcessingBlocks(ctx context.Context) error {
 	for _, blk := range processingBlocks {
 		parent, err := v.GetBlock(ctx, blk.Parent())
 		if err != nil {
-			return fmt.Errorf("failed to fetch parent block %s while verifying processing block %s after state sync: %w", blk.Parent(), blk, err)
+			// The engine rejects a branch block by block and does not hold chainLock while it does:
+			// the parent may already have been rejected while this block still waits for its own
+			// Reject. The block can never be verified; mark it unresolved until it is rejected.
+			v.log.Warn("Parent block not found, skipping verification of processing block",
+				zap.Stringer("parentID", blk.Parent()),
+				zap.Stringer("block", blk),
+				zap.Error(err),
+			)
+			invalidBlkIDs.Add(blk.ID())
+			continue
 		}
 		// the parent failed verification and this block is transitively invalid,
 		// we are marking this block as unresolved
